@@ -16,10 +16,18 @@ def _cmds_for(scn, by_sid, tier):
     schema = {"nodes": by_sid[scn["sid"]]["nodes"]}
     rds = codec.readers(tier, len(scn["enc"]))
     encs = [("enc", scn["enc"])] + [("layout", l) for l in scn["lays"]]
+    G = schema["nodes"]
     for kind, b in encs:
-        for rd in rds:
-            out.append(({"op": "de", "schema": schema, "bytes": b, "reader": rd},
-                        {"must": "ok", "value": scn["v"], "consumed": len(b)}, kind))
+        for i, rd in enumerate(rds):
+            # the natural hints with every reader; the alternative target families rotate over the readers
+            for h in (codec.HINTS if (kind == "enc" or i == 0) else ["default"]):
+                cmd = {"op": "de", "schema": schema, "bytes": b, "reader": rd}
+                if h != "default":
+                    cmd["hints"] = h
+                if h == "alt":
+                    cmd["shape"] = scn["v"]
+                out.append((cmd, {"must": "ok", "value": codec.expected_for(G, scn["v"], h), "consumed": len(b)},
+                            kind if h == "default" else f"{kind}/{h}"))
     for m in scn["mal"]:
         for rd in rds[:2]:
             out.append(({"op": "de", "schema": schema, "bytes": m, "reader": rd}, {"must": "err"}, "malformed"))
